@@ -3,16 +3,19 @@ import Okane.Model.Golden
 /-!
 Driver for C20.  Case line:  `<file> <envAtNew> <envAtAssert> <got>`
   file : `-` (absent) | `b` (present, not UTF-8) | `t:<enc>` (present, UTF-8 text)
+         | `d` (absent, and the parent directory does not exist: cannot be written) | `D` (the path is a directory)
   env  : `u` (unset) | `i` (set, not Unicode) | `s:<enc>`
 Output: `new=<ok|notFound|invalidData> assert=<pass|panic|-> wrote=<0|1> file=<-|b|t:enc>`
 -/
 namespace Okane.Drv.C20
 open Okane Okane.Golden
 
-def parseFile (s : String) : Option (Option FileContent) :=
-  if s == "-" then some none
-  else if s == "b" then some (some .binary)
-  else if s.startsWith "t:" then (Sexp.decode (s.drop 2).toString).map fun t => some (.text t.toList)
+def parseFile (s : String) : Option (Option FileContent × Bool) :=
+  if s == "-" then some (none, true)
+  else if s == "d" then some (none, false)
+  else if s == "D" then some (some .directory, false)
+  else if s == "b" then some (some .binary, true)
+  else if s.startsWith "t:" then (Sexp.decode (s.drop 2).toString).map fun t => (some (.text t.toList), true)
   else none
 
 def parseEnv (s : String) : Option EnvVal :=
@@ -24,22 +27,24 @@ def parseEnv (s : String) : Option EnvVal :=
 def showFile : Option FileContent → String
   | none => "-"
   | some .binary => "b"
+  | some .directory => "D"
   | some (.text cs) => "t:" ++ Sexp.encode (String.ofList cs)
 
 def step (line : String) : String :=
   match words line with
   | [f, e1, e2, g] =>
     match parseFile f, parseEnv e1, parseEnv e2, Sexp.decode g with
-    | some file, some env1, some env2, some got =>
-      let w1 : World := ⟨file, env1⟩
+    | some (file, wr), some env1, some env2, some got =>
+      let w1 : World := ⟨file, env1, wr⟩
       match Golden.new w1 with
       | .ok gold =>
-        let w2 : World := ⟨file, env2⟩
+        let w2 : World := ⟨file, env2, wr⟩
         let (v, w', wrote) := Golden.assert gold got.toList w2
         let vs := match v with | .pass => "pass" | .panic => "panic"
         s!"new=ok assert={vs} wrote={if wrote then 1 else 0} file={showFile w'.file}"
       | .err .notFound => s!"new=notFound assert=- wrote=0 file={showFile file}"
       | .err .invalidData => s!"new=invalidData assert=- wrote=0 file={showFile file}"
+      | .err .other => s!"new=otherError assert=- wrote=0 file={showFile file}"
       | _ => "new=crash"
     | _, _, _, _ => "bad-case"
   | _ => "bad-case"
